@@ -34,6 +34,7 @@ type bElem struct {
 	BE    bool      // field produced by a big-endian writer
 	L, R  ssa.Value // bExpr: resolved operands
 	Op    token.Token
+	Fn    *ssa.Function // bOpaque produced by a static call: the callee
 }
 
 type shape []bElem
@@ -203,10 +204,10 @@ func (s *shaper) slice(v ssa.Value) shape {
 		if bi, ok := x.Call.Value.(*ssa.Builtin); ok && bi.Name() == "append" && len(x.Call.Args) == 2 {
 			return append(s.slice(x.Call.Args[0]), s.slice(x.Call.Args[1])...)
 		}
-		return shape{{Kind: bOpaque, N: -1, Desc: shortCallee(&x.Call)}}
+		return shape{{Kind: bOpaque, N: -1, Desc: shortCallee(&x.Call), Fn: x.Call.StaticCallee()}}
 	case *ssa.Extract:
 		if call, ok := x.Tuple.(*ssa.Call); ok {
-			return shape{{Kind: bOpaque, N: -1, Desc: shortCallee(&call.Call)}}
+			return shape{{Kind: bOpaque, N: -1, Desc: shortCallee(&call.Call), Fn: call.Call.StaticCallee()}}
 		}
 	case *ssa.Convert:
 		// []byte(string)
